@@ -665,6 +665,11 @@ def concrete_failure(prop, m):
             return True
     if prop == 'C11' and wrongly_accepted and any(k in op for k in ('nodeRegister', 'nodeUpdate', 'nodeSubscribe')):
         return True
+    if prop == 'C19' and m.get('kind') == 'result' and op.startswith('export') and (m.get('impl') or '').startswith('reject') \
+            and (m.get('model') or '').startswith('accept'):
+        # the genesis the chain has just written is refused by the chain's own validation (the model's export validates:
+        # Props/C12Export): an export-then-import flow cannot read it back
+        return True
     if prop == 'C19' and m.get('kind') == 'events' and op.startswith('export'):
         # a stored record that does not decode to the value it was written from (the export lists every record)
         return True
@@ -796,6 +801,11 @@ def check_property(prop, tier, seed):
                 known_lines.append(sig)
             else:
                 violations.append(('exported genesis invalid or altered by the round trip', {'failing_input': e['ops'], 'roundtrip': e}))
+    if prop == 'C14':
+        # "is recorded": a swap record lost or altered by an export / re-import lets its hash be minted again
+        for e in corr.get('roundtrip', {}).get('reimport_diffs', []):
+            if any(str(x).startswith('swap') for x in e.get('sections', [])):
+                violations.append(('a recorded swap is lost or altered by the export / re-import round trip', {'failing_input': e['ops'], 'roundtrip': e}))
     if P.get('halts'):
         for h in corr.get('halts', []):
             sig = match_finding(findings, h)
